@@ -354,13 +354,16 @@ func modeC03() {
 	for _, tree := range treesByChunks(3, 3, chunk) {
 		for _, s := range streams {
 			for _, cn := range conns {
-				for _, pre := range []string{"off", "", "partial", "complete", "firstchunk", "holes"} {
+				for _, pre := range []string{"off", "", "partial", "complete", "firstchunk", "holes", "partial@8", "partial@2", "complete@8", "holes@2", "complete@3"} {
 					c := Case{Tree: tree, Chunk: chunk, Streams: s, Conns: cn, Resume: pre != "off", NoRootDir: true}
 					if pre != "off" {
 						c.Pre = pre
 					}
-					if (pre == "partial" || pre == "complete" || pre == "firstchunk" || pre == "holes") && (len(tree) == 0 || tree[0].Size == 0) {
+					if pre != "off" && pre != "" && (len(tree) == 0 || tree[0].Size == 0) {
 						continue
+					}
+					if strings.Contains(pre, "@") && (s > 2 || cn > 1) {
+						continue // metadata of a run with another chunk size: reduced slice
 					}
 					cases = append(cases, c)
 					if pre == "partial" || pre == "complete" || pre == "firstchunk" || pre == "holes" {
@@ -516,9 +519,12 @@ func modeC01() {
 		for _, tree := range trees {
 			for _, s := range []int{1, 2, 4} {
 				for _, cn := range []int{1, 2} {
-					for _, pre := range []string{"off", "", "partial", "complete", "holes", "firstchunk", "stale-longer", "stale-shorter"} {
+					for _, pre := range []string{"off", "", "partial", "complete", "holes", "firstchunk", "stale-longer", "stale-shorter", "partial@8", "partial@2", "complete@8", "holes@2", "complete@3"} {
 						if pre != "off" && pre != "" && (len(tree) == 0 || tree[0].Size <= 0) {
 							continue
+						}
+						if strings.Contains(pre, "@") && (s > 2 || cn > 1 || strings.HasSuffix(pre, fmt.Sprint("@", chunk))) {
+							continue // metadata of a run with another chunk size: reduced slice
 						}
 						for _, nr := range []bool{true, false} {
 							for _, sp := range []bool{false, true} {
